@@ -18,7 +18,8 @@ def completion_programs(n_sys, prios, later):
                     prog = []
                     for k, i in enumerate(ids):
                         win = [at, S.FOREVER, 1] if k == who else list(S.ALWAYS)
-                        prog.append(["add", [i, 1], pr[k], win, [["complete"]] if k == who else []])
+                        # serial 3 = a system bound to another, still running model (see Scripted); the completer is always the host's
+                        prog.append(["add", [i, 1 if (k == who or (k + at) % 2) else 3], pr[k], win, [["complete"]] if k == who else []])
                     if who is None:
                         if at:
                             prog.append(["exec", at, "execute"])
@@ -36,7 +37,7 @@ def completion_programs(n_sys, prios, later):
 
 def tails(depth):
     import itertools
-    atoms = [["exec", 1, "execute"], ["exec", 2, "execute"], ["exec", 1, "throw"], ["exec", 1, "execute_systems"],
+    atoms = [["exec", 1, "execute"], ["exec", 2, "execute"], ["exec", 1, "throw"], ["exec", 1, "throw1"], ["exec", 1, "execute_systems"],
              ["add", ["z", 1], 5, list(S.ALWAYS), []], ["remove", "a"], ["complete"]]
     out = [[]]
     for d in range(1, depth + 1):
